@@ -353,4 +353,12 @@ theorem C01_split_points_regenerated :
   NutsProofs.Facts.bptree_split_points
 
 
+/-- **regenerated tie of the B+ tree model.** The comparisons of `FindLeaf` / `Find` / `insertIntoLeaf`, the loop
+headers, offset and limit counters and stop conditions of `findRange` / `PrefixScan` / `PrefixSearchScan`, the
+capacity tests of `Insert` / `insertIntoParent` and the split indexes of `splitLeaf` / `splitParent` — the
+lines `Nuts.Model.BPTree` renders — are, on this run, exactly the expected ones
+(`NutsProofs.Facts.expectedBptStmts`, 86 lines of bptree.go). -/
+theorem C01_tree_statements_regenerated : NutsGen.F.bptStmts = NutsProofs.Facts.expectedBptStmts :=
+  NutsProofs.Facts.bpt_statements_ok
+
 end NutsProofs.C01
